@@ -242,6 +242,20 @@ func (s *simpleCtx) simpleList(items [][]byte, rng *rand.Rand) bool {
 		q = cloneSimple(p)
 		q.Aunts = append([][]byte{refLeaf([]byte("x"))}, q.Aunts...)
 		ok = ok && s.expectReject("aunt-add-front", n, i, q, root, leaf)
+		// a trail of the wrong length (no root can be computed) presented with an empty root
+		for _, emptyRoot := range [][]byte{nil, {}} {
+			q = cloneSimple(p)
+			q.Aunts = append(q.Aunts, refLeaf([]byte("x")))
+			ok = ok && s.expectReject("aunt-add+root-empty", n, i, q, emptyRoot, leaf)
+			if len(p.Aunts) > 0 {
+				q = cloneSimple(p)
+				q.Aunts = q.Aunts[1:]
+				ok = ok && s.expectReject("aunt-drop+root-empty", n, i, q, emptyRoot, leaf)
+			}
+			q = cloneSimple(p)
+			q.Index = n + 1
+			ok = ok && s.expectReject("index-out-of-range+root-empty", n, i, q, emptyRoot, leaf)
+		}
 		// index: every other index, and out-of-range ones
 		for j := -2; j <= n+2; j++ {
 			if j == i {
